@@ -836,6 +836,7 @@ def _oracle_c14_manager_originated(self, model, mon, sub_since):
     exempt = set(C.LOG_TYPES) | {C.MT_FAILED_MESSAGE}
     expected = defaultdict(Counter)     # round -> Counter((type, module id))
     observed = defaultdict(Counter)
+    optional = defaultdict(Counter)
     blocked_of = {}
     for ev in net.events:
         if ev[1] == "ROUND_WRITABLE":
@@ -888,6 +889,11 @@ def _oracle_c14_manager_originated(self, model, mon, sub_since):
         st = model.state_at(conn, s_)
         if st is None:
             continue
+        if mt == C.MT_ACKNOWLEDGE and not st[3] and not (mt in st[1] or ALL in st[1]):
+            # the acknowledgement of a request, written to the requester itself: the requester is not a
+            # subscriber of it, so the statement does not demand a notice (the manager sends one: allowed)
+            optional[rnd][(mt, st[2])] += 1
+            continue
         expected[rnd][(mt, st[2])] += 1
     for rnd in set(expected) | set(observed):
         e, o = Counter(expected.get(rnd, Counter())), Counter(observed.get(rnd, Counter()))
@@ -911,7 +917,21 @@ def _oracle_c14_manager_originated(self, model, mon, sub_since):
         if e == o:
             continue
         missing = e - o
+        opt = Counter(optional.get(rnd, Counter()))
         extra = o - e
+        common = extra & opt
+        extra -= common
+        opt -= common
+        for (t, mid), n in list(opt.items()):
+            if mid == -1:
+                for (t2, mid2), n2 in list(extra.items()):
+                    if t2 == t and n > 0 and n2 > 0:
+                        k = min(n, n2)
+                        extra[(t2, mid2)] -= k
+                        n -= k
+        extra += Counter()
+        if not missing and not extra:
+            continue
         if missing:
             (t, mid), n = next(iter(missing.items()))
             res.add("C14", "missing_notice_manager_msg",
